@@ -237,7 +237,29 @@ def r15_4(chk):
     chk.floor("R15.4", 12)
 
 
+def r15_6(chk):
+    """What the per-item copy of `StateVector.copy` calls: every `copy` method of the library (propagators, Cov, Ephem, the
+    state itself) returns an object built in the call, never the receiver or something the receiver holds (wave q:
+    `Propagator.copy` returning `self`, so that an orbit and its copy share one propagator and its bound orbit)."""
+    repo = chk.repo
+    for f in repo.all_funcs():
+        if f.name != "copy" or f.cls is None:
+            continue
+        fr = Fresh(f, repo)
+        vals = set()
+        rets = [n for n in walk_no_nested(f.node) if isinstance(n, ast.Return)]
+        for r in rets:
+            vals |= fr.classify(r.value) if r.value is not None else {"None"}
+        bad = sorted(v for v in vals if v != "fresh")
+        ok = bool(rets) and not bad
+        chk.inst("R15.6", f"{f.ref}::returns-a-new-object", ok, "every return value is built in the call" if ok else
+                 f"returns {bad or 'nothing'}: the per-item copy of StateVector.copy hands the copy the very object the original holds", loc(f, f.node))
+    chk.floor("R15.6", 10)
+
+
 def run(chk):
+    chk.rule("R15.6", "every `copy` method returns an object built in the call (never the receiver or a part of it)")
+    chk.guard(r15_6, chk)
     chk.rule("R15.1", "copy idiom: per-item copies, fresh buffer, receiver untouched; as_orbit/as_statevector likewise")
     chk.rule("R15.2", "form and frame setters compute before they commit; form restored on failure")
     chk.rule("R15.3", "name/alias/index access agrees between reading and writing and with the current form")
